@@ -235,6 +235,20 @@ static hwloc_topology_t load_topo(const char *spec) {
   hwloc_topology_set_all_types_filter(t, HWLOC_TYPE_FILTER_KEEP_ALL);
   /* 'g' specs: "<synthetic description>|<cpuset>,<cpuset>,..." = the synthetic topology after inserting one Group per cpuset, in that
    * order (levels of a topology modified after load: Group depths are renumbered by every insertion) */
+  /* 'c' specs: "<type name>,<depth>,<cache type>" = a one-PU XML document with one cache object of that type name carrying those
+   * attributes (consistent or not: an inconsistent combination must be refused by the loader, or print a text that parses back) */
+  if (spec[0] == 'c') {
+    char tn[64]; int dep = 0, cty = 0; static char doc[2048];
+    if (sscanf((char *) raw, "%63[^,],%d,%d", tn, &dep, &cty) != 3) { hwloc_topology_destroy(t); return NULL; }
+    int dl = snprintf(doc, sizeof doc, "<?xml version=\"1.0\" encoding=\"UTF-8\"?>\n<topology version=\"3.0\">\n"
+      "<object type=\"Machine\" os_index=\"0\" cpuset=\"0x1\" complete_cpuset=\"0x1\" allowed_cpuset=\"0x1\" nodeset=\"0x1\" complete_nodeset=\"0x1\" allowed_nodeset=\"0x1\" gp_index=\"1\">\n"
+      "<object type=\"NUMANode\" os_index=\"0\" cpuset=\"0x1\" complete_cpuset=\"0x1\" nodeset=\"0x1\" complete_nodeset=\"0x1\" gp_index=\"2\" local_memory=\"1024\"/>\n"
+      "<object type=\"%s\" cpuset=\"0x1\" complete_cpuset=\"0x1\" nodeset=\"0x1\" complete_nodeset=\"0x1\" gp_index=\"3\" cache_size=\"1024\" depth=\"%d\" cache_linesize=\"64\" cache_associativity=\"1\" cache_type=\"%d\">\n"
+      "<object type=\"PU\" os_index=\"0\" cpuset=\"0x1\" complete_cpuset=\"0x1\" nodeset=\"0x1\" complete_nodeset=\"0x1\" gp_index=\"4\"/>\n</object>\n</object>\n</topology>\n", tn, dep, cty);
+    if (hwloc_topology_set_xmlbuffer(t, doc, dl + 1) < 0 || hwloc_topology_load(t) < 0) { hwloc_topology_destroy(t); return NULL; }
+    cur_topo = t; snprintf(cur_spec, sizeof cur_spec, "%s", spec);
+    return t;
+  }
   char *bar = spec[0] == 'g' ? strchr((char *) raw, '|') : NULL;
   if (bar) *bar++ = 0;
   int err = (spec[0] == 's' || spec[0] == 'g') ? hwloc_topology_set_synthetic(t, (char *) raw) : hwloc_topology_set_xml(t, (char *) raw);
@@ -287,7 +301,7 @@ static int exec_line(char *line) {
     struct tsn_arg a = { &b.o, strtoul(tok[1], 0, 10), (char *) sep };
     int isnull = !strcmp(tok[2], "null");
     exec_print(call_asn, &a, isnull, isnull ? 0 : strtoul(tok[2], 0, 10));
-  } else if (!strcmp(op, "rt") && nt >= 2 + OD_FIXED) {
+  } else if ((!strcmp(op, "rt") || !strcmp(op, "rtl")) && nt >= 2 + OD_FIXED) {
     struct od d; struct built b; char text[512];
     if (get_od(tok + 2, nt - 2, &d) < 0) { fprintf(fout, "bad-op\n"); return 0; }
     build_obj(&b, &d);
@@ -340,8 +354,10 @@ static void emit_asn(unsigned long flags, long size, const char *sep, struct od 
   put_hex(fops, (const unsigned char *) sep, strlen(sep)); fputc(' ', fops);
   put_od(fops, d); fputc('\n', fops); nemitted++; stat_hit("asn");
 }
+/* `rtl` = the same round trip for an object OF A LOADED TOPOLOGY: the property demands that it parses back, whatever its attributes */
+static int emitting_loaded;
 static void emit_rt(unsigned long flags, struct od *d) {
-  fprintf(fops, "rt %lu ", flags); put_od(fops, d); fputc('\n', fops); nemitted++; stat_hit("rt");
+  fprintf(fops, "%s %lu ", emitting_loaded ? "rtl" : "rt", flags); put_od(fops, d); fputc('\n', fops); nemitted++; stat_hit(emitting_loaded ? "rtl" : "rt");
 }
 static void emit_ssc(const unsigned char *s, size_t n, const char *mode) {
   for (size_t i = 0; i < n; i++) if (!s[i]) { n = i; break; }
@@ -561,7 +577,7 @@ static void gen_topology(const char *spec, unsigned budget) {
       if (d.type == HWLOC_OBJ_OS_DEVICE && (d.ostypes & (d.ostypes - 1))) stat_hit("loaded_osdev_multibit");
       if (d.type == HWLOC_OBJ_OS_DEVICE) stat_hit("loaded_osdev");
       if (d.type == HWLOC_OBJ_BRIDGE) stat_hit("loaded_bridge");
-      emit_obj_ops(&d, rng_chance(10));
+      emitting_loaded = 1; emit_obj_ops(&d, rng_chance(10)); emitting_loaded = 0;
     }
   }
 }
@@ -647,6 +663,16 @@ static void gen_random(unsigned long nops, unsigned part) {
     gen_topology(spec, 60);
     stat_hit("topo_with_inserted_groups");
   }
+  /* cache catalogue: every cache type name x depth 0..6 x cache type 0..3, spread over the parts */
+  { static const char *cn[] = { "L1Cache", "L2Cache", "L3Cache", "L4Cache", "L5Cache", "L1iCache", "L2iCache", "L3iCache" };
+    unsigned k = 0;
+    for (unsigned a = 0; a < 8; a++) for (int dep = 0; dep <= 6; dep++) for (int cty = 0; cty <= 3; cty++, k++) {
+      if (k % 6 != part % 6) continue;
+      char rawspec[96]; snprintf(rawspec, sizeof rawspec, "%s,%d,%d", cn[a], dep, cty);
+      put_spec(spec, sizeof spec, 'c', rawspec);
+      gen_topology(spec, 8);
+      stat_hit("cache_catalogue_docs");
+    } }
   const char *dir = getenv("VERIF_XMLDIR");
   if (dir) {
     struct dirent **nl; int n = scandir(dir, &nl, NULL, alphasort);
